@@ -28,7 +28,7 @@ fn build_bases() -> Vec<Rc<Base>> {
     let mut out = vec![];
     let specs: [(u8, u32, bool, &str); 3] = [(12, 1200, false, "FAT12 fixed root (64 slots)"), (16, 9000, true, "FAT16 subdirectory spanning 3 clusters"), (32, 67000, false, "FAT32 root spanning 3 clusters")];
     for (fat, total, sub, name) in specs {
-        let v = VolCfg { source: VolSource::Format, fat, bps: 512, spc: 1, fats: 1, root_entries: 64, total_sectors: total, extra_sectors: 0, ballast_keep: None, ballast_mode: 0, fsinfo_mode: 0, hint: None, status: 0, label: false, tail_taken: 0 };
+        let v = VolCfg { source: VolSource::Format, fat, bps: 512, spc: 1, fats: 1, root_entries: 64, total_sectors: total, extra_sectors: 0, ballast_keep: None, ballast_mode: 0, fsinfo_mode: 0, hint: None, status: 0, label: false, tail_taken: 0, dirty_medium: false };
         let store = crate::vol::format_store(&v).expect("harness: c17 base");
         let st = Rc::new(RefCell::new(DiskState::new(store)));
         st.borrow_mut().log_mode = LogMode::Off;
